@@ -1,6 +1,9 @@
 //! modified from std::sys_common::poison except for both thread and coroutine
 //! please ref the doc and comments from std::sys_common::poison
 
+#[cfg(may_verif)]
+use crate::verif::atomic::{AtomicUsize, Ordering};
+#[cfg(not(may_verif))]
 use std::sync::atomic::{AtomicUsize, Ordering};
 use std::sync::{LockResult, PoisonError};
 use std::thread;
